@@ -231,7 +231,14 @@ func (w *world) newStore(cacheKind string, dead bool, freshCfg bool) {
 	ctx := context.Background()
 	var cancel context.CancelFunc = func() {}
 	if deadline >= 0 {
-		ctx, cancel = context.WithTimeout(ctx, time.Duration(deadline)*time.Millisecond)
+		if deadline == 0 || r.Intn(2) == 0 {
+			ctx, cancel = context.WithTimeout(ctx, time.Duration(deadline)*time.Millisecond)
+		} else {
+			// the same instant, but as a cancellation: the context carries no deadline to plan around
+			ctx, cancel = context.WithCancel(ctx)
+			tm := time.AfterFunc(time.Duration(deadline)*time.Millisecond, cancel)
+			defer tm.Stop()
+		}
 	}
 	w.tick = newFakeTicker()
 	// NewStore sorts and compacts the caller's slice in place: hand it a copy
